@@ -527,6 +527,9 @@ def choice_lattice():
         order += [["s", m["name"]] for m in mem]
         ents.append({"k": "if", "c": S("G2"), "children": [ch]} if nested else ch)
         vars_.append({"n": cid, "kind": "choice", "cands": [NOVAL, "M1", "M2", "M3"]})
+        if dflt in (0, 2) and not nested:
+            # a user value n on one member itself (it never moves the selection; the member stays what the choice makes it)
+            vars_.append({"n": "M1" if dflt == 0 else "M3", "kind": "sym", "cands": [NOVAL, "n"]})
         obs = mk_config("OBS", "int", prompt=None, defaults=[{"v": C("1"), "c": S("M1")}, {"v": C("2"), "c": S("M2")}, {"v": C("3"), "c": S("M3")}, {"v": C("0"), "c": Y}])
         ents.append(obs)
         order.append(["s", "OBS"])
